@@ -138,7 +138,10 @@ to_docstring = Contract(
          "opaque and logged: the contract pins which entries are rendered, in which order, and how they are joined",
     cases=[_td_case("one-param,types", _td_ir(1), True, _NOD), _td_case("one-param,no-types", _td_ir(1), False, _NOD), _td_case("no-params", _td_ir(0), True),
            _td_case("one-param,default", ("dict", {"name": "str", "doc": "str", "params": ("dict", {"p0": ("dict", {"typ": "str", "doc": "str", "default": "int"})}), "returns": None}),
-                    False, ["intermediate_repr['params']['p0']['doc'] != ''"])],
+                    False, ["intermediate_repr['params']['p0']['doc'] != ''"]),
+           _td_case("return,default", ("dict", {"name": "str", "doc": "str", "params": ("dict", {}),
+                                                "returns": ("dict", {"return_type": ("dict", {"typ": "str", "doc": "str", "default": "int"})})}),
+                    False, ["intermediate_repr['returns']['return_type']['doc'] != ''"])],
     ghosts={"~doc, default = extract_default(": [("g_announced", "default")]},
     use_contract_for=["doctrans.defaults_utils:extract_default", "doctrans.defaults_utils:needs_quoting"],
     ensures=[
@@ -155,6 +158,10 @@ to_docstring = Contract(
                            "and typeis(intermediate_repr['params']['p0']['default'], 'int')))", when=["one-param,default"],
                note="what to_docstring does to the description it is handed (the emitters hand it their own copy and read that copy afterwards): names and types stay; "
                     "the default is rewritten ONLY when the prose itself announces one (extract_default returned a value) - the frame the round-trip laws assume of it"),
+        Clause("TD-frame-return", "list(intermediate_repr['returns'].keys()) == ['return_type'] and intermediate_repr['returns']['return_type']['typ'] == old_intermediate_repr['returns']['return_type']['typ'] "
+                                  "and (g_announced is not None or (intermediate_repr['returns']['return_type']['default'] == old_intermediate_repr['returns']['return_type']['default'] "
+                                  "and typeis(intermediate_repr['returns']['return_type']['default'], 'int')))", when=["return,default"],
+               note="the same frame for the return entry (seed C13-5 lives on it: whoever hands to_docstring a shared return entry shares these writes)"),
         Clause("TD-no-params", "log_emit_param_str_n == 0 and result == '\\n' + log_indent_results[0] + '\\n' + %s" % _SEP, when=["no-params"], note="no entry is invented"),
     ],
     canaries=["result == ''"],
